@@ -91,7 +91,9 @@ func (s *Syncer) syncLoop(ctx context.Context, env *lmdb.Env, r *receiver.Receiv
 			break
 		}
 		s.l.WithError(err).Info("Waiting for initial receiver listing")
-		time.Sleep(time.Second)
+		if err := utils.SleepContext(ctx, time.Second); err != nil {
+			return err
+		}
 		verifhook.Yield(ctx, "sync:initial-listing-retry")
 	}
 
